@@ -6,7 +6,8 @@ from typing import List
 
 from ..aggfacts import compare_with_spec
 from ..core import AnalysisError, attr_chain, kwarg, short, walk_no_nested, walk_stmts
-from ..grouping import GroupFacts, vector_reduction_facts
+from ..groupsx import GroupModel
+from .grouprules import vector_reduction_facts
 from ..sites import comp_of, fill_of, same_elements_of
 from . import c05, c07
 from . import grouprules as gr
@@ -114,8 +115,8 @@ def _reductions(ctx) -> None:
 
 
 def _aggregators(ctx) -> None:
-    agg = GroupFacts(ctx.prog, "aggregate")
-    win = GroupFacts(ctx.prog, "window")
+    agg = GroupModel(ctx.prog, "aggregate")
+    win = GroupModel(ctx.prog, "window")
     gr.aggregator_table(ctx, agg, "c.aggregators")
     gr.aggregator_table(ctx, win, "c.aggregators")
     gr.siblings(ctx, agg, win, "c.siblings")
